@@ -248,6 +248,44 @@ def check_lookup(ctx, f):
     return new
 
 
+def check_track_release(ctx, f, flt):
+    """O-TRACK (added after seeded change C32): a NameOwnerChanged that names no new owner (the name was released) must
+    clear the tracked owner too. So once `filter` has decoded the signal's arguments, every path to a normal return
+    stores `src_unique_name`; a store placed under `if let Some(new_owner) = ..` keeps the former owner and its signals
+    are still yielded while the name has no owner."""
+    stores = set()
+    for bi, i, pl, rv, ln in mir.assignments(flt):
+        if "src_unique_name" in mir.place_fields(pl):
+            stores.add(bi)
+    for c in mir.calls(flt):
+        # Option::take / replace / insert on the field also store it
+        if c.args and c.callee.rsplit("::", 1)[-1] in ("replace", "insert", "take", "clone_from"):
+            o = mir.origin(flt, c.args[0])
+            if o[0] in ("place", "ref") and "src_unique_name" in mir.place_fields(o[1]):
+                stores.add(c.b)
+    argcalls = [c for c in mir.calls(flt) if c.is_("args") and "NameOwnerChanged" in c.callee]
+    ctx.floor("O-TRACK", "NameOwnerChanged::args calls in SignalStream::filter", len(argcalls), 1)
+    for c in argcalls:
+        # success continuation of `args()?`
+        start = c.c["t"]
+        br = [x for x in mir.calls(flt) if x.is_("branch") and mir.origin(flt, x.args[0])[0] == "call" and mir.origin(flt, x.args[0])[1] is c]
+        cont = None
+        for x in br:
+            for sb, place, adt, arms, other in mir.discr_switches(flt, None):
+                if place[0] == x.dest[0]:
+                    cont = arms.get("0", other)
+        if cont is None:
+            cont = start
+        # error exits (from_residual) are not "normal" completions of the update
+        errs = {x.b for x in mir.calls(flt) if x.is_("from_residual")}
+        reach = mir.reachable(flt, [cont], avoid=stores | errs)
+        leak = [e for e in mir.exits(flt) if e in reach]
+        ctx.ob("O-TRACK", "filter:owner-stored-on-every-NameOwnerChanged", not leak,
+               "after decoding NameOwnerChanged every path stores the tracked owner (also when the name has no new owner)" if not leak else
+               "filter can return after decoding NameOwnerChanged without storing src_unique_name (e.g. when new_owner is None): "
+               "the former owner stays tracked after it released the name", c.where)
+
+
 def run(ctx):
     ctx.explanation = ("MIR rules over zbus (K1): SignalStream::filter accepts only on the true edge of "
                        "`sender == src_unique_name`; poll_next_before yields only on filter's Ok(true) for that message; "
@@ -259,6 +297,7 @@ def run(ctx):
                        "helper functions (reported, fail closed).")
     f = ctx.facts("K1")
     flt = check_filter(ctx, f)
+    check_track_release(ctx, f, flt)
     check_gate(ctx, f, flt)
     check_who(ctx, f, flt)
     new = check_lookup(ctx, f)
